@@ -87,19 +87,26 @@ Definition ex_root : die :=
        Die 2 46 false [(49, AvUnitRef (mkEid 0 1))] [];
        Die 3 36 false [(11, AvUdata 7)] []].
 Definition ex_st0 : cst := mkCst 11 [0; 0; 0; 0] [] [0; 0; 0; 0].
-Definition ex_st : cst := mkCst 37 [11; 23; 27; 33] [] [1; 2; 3; 2].
+Definition ex_st : cst := mkCst 33 [11; 22; 25; 30] [] [1; 2; 3; 2].
 
 Example offsets_exact_ex :
-  exists st ops,
-    calc true ex_enc ex_root ex_st0 = Ok st /\ cs_entries st = cs_entries ex_st /\ cs_codes st = cs_codes ex_st /\
-    write_die true (mkWcx ex_enc false 0 0 (cs_entries st) (cs_codes st) None [] [] [] []) ex_root 11 = Ok ops /\
-    ops_marks 11 ops = [(0%nat, 11); (1%nat, 23); (2%nat, 27); (3%nat, 33)] /\
-    cs_off st = 37 /\ ops_len ops = 26 /\ NoDup (die_ids ex_root) /\
-    ops_unit_refs 11 ops = [(18, mkEid 0 2); (28, mkEid 0 1)].
+  match calc true ex_enc ex_root ex_st0 with
+  | Ok st =>
+      cs_entries st = cs_entries ex_st /\ cs_codes st = cs_codes ex_st /\ cs_off st = 33 /\
+      match write_die true (mkWcx ex_enc false 0 0 (cs_entries st) (cs_codes st) None [] [] [] []) ex_root 11 with
+      | Ok ops =>
+          ops_marks 11 ops = [(0%nat, 11); (1%nat, 22); (2%nat, 25); (3%nat, 30)] /\ ops_len ops = 22 /\
+          ops_unit_refs 11 ops = [(18, mkEid 0 2); (26, mkEid 0 1)]
+      | _ => False
+      end
+  | _ => False
+  end.
+Proof. vm_compute. repeat split; reflexivity. Qed.
+
+Example offsets_exact_ex_nodup : NoDup (die_ids ex_root).
 Proof.
-  eexists. eexists. vm_compute.
-  repeat split; try reflexivity.
-  repeat constructor; cbn; intuition discriminate.
+  change (NoDup [0; 1; 2; 3]%nat).
+  repeat (constructor; [cbn; intuition discriminate|]). constructor.
 Qed.
 
 (* ---------------------------------------------------------------- (3) abbreviation de-duplication *)
@@ -128,7 +135,10 @@ Example abbrev_dedup_ex :
   let b := mkAbbrev 46 false [mkAspec 49 19 0] in
   abbrev_add [] a = (1, [a]) /\ abbrev_add [a] b = (2, [a; b]) /\ abbrev_add [a; b] a = (1, [a; b]) /\
   NoDup ([a] ++ [b]).
-Proof. vm_compute. repeat split; try reflexivity. repeat constructor; cbn; intuition discriminate. Qed.
+Proof.
+  cbv zeta. split; [reflexivity|]. split; [reflexivity|]. split; [reflexivity|].
+  cbn [app]. repeat (constructor; [cbn; intuition discriminate|]). constructor.
+Qed.
 
 (* ---------------------------------------------------------------- (4) string tables *)
 
@@ -160,11 +170,17 @@ Proof. exact strtab_offset_points. Qed.
 
 Example strings_ex :
   strtab_wf strtab_empty /\
-  exists t1 t2,
-    strtab_add true strtab_empty [x68; x69] = Ok (0%nat, t1) /\ strtab_add true t1 [x61] = Ok (1%nat, t2) /\
-    strtab_add true t2 [x68; x69] = Ok (0%nat, t2) /\ st_offsets t2 = [0; 3] /\
-    strtab_write t2 = [x68; x69; x00; x61; x00].
-Proof. split; [exact strtab_empty_wf|]. eexists. eexists. vm_compute. repeat split; reflexivity. Qed.
+  match strtab_add true strtab_empty [x68; x69] with
+  | Ok (i1, t1) =>
+      match strtab_add true t1 [x61] with
+      | Ok (i2, t2) =>
+          i1 = 0%nat /\ i2 = 1%nat /\ strtab_add true t2 [x68; x69] = Ok (0%nat, t2) /\ st_offsets t2 = [0; 3] /\
+          strtab_write t2 = [x68; x69; x00; x61; x00]
+      | _ => False
+      end
+  | _ => False
+  end.
+Proof. split; [exact strtab_empty_wf|]. vm_compute. repeat split; reflexivity. Qed.
 
 (* ---------------------------------------------------------------- (5) unencodable requests are errors *)
 
@@ -240,9 +256,11 @@ Proof. exact @filter_partition_perm. Qed.
 
 Example base_types_first_ex :
   let e t ch := mkEntry None t false [] ch in
-  exists ents', reorder_base_types [e 17 [1; 2; 3; 4]%nat; e 46 []; e 36 []; e 52 []; e 36 []] = Ok ents' /\
-                option_map en_children (nth_error ents' 0) = Some [2; 4; 1; 3]%nat.
-Proof. eexists. vm_compute. split; reflexivity. Qed.
+  match reorder_base_types [e 17 [1; 2; 3; 4]%nat; e 46 []; e 36 []; e 52 []; e 36 []] with
+  | Ok ents' => option_map en_children (nth_error ents' 0) = Some [2; 4; 1; 3]%nat
+  | _ => False
+  end.
+Proof. vm_compute. reflexivity. Qed.
 
 (* ---------------------------------------------------------------- no panic *)
 
